@@ -45,6 +45,10 @@ Types ==
     [] Fam = "bigst" -> {BigStruct(n) : n \in BigSizes}
     [] Fam = "deepst" -> {Deep(5, t) : t \in {[k |-> "f64"], [k |-> "str"], [k |-> "iface"], [k |-> "uj"], [k |-> "slice", e |-> [k |-> "int"]], [k |-> "ptr", e |-> [k |-> "i8"]],
                                                [k |-> "map", key |-> "str", e |-> [k |-> "f64"]]}}
+    [] Fam = "bounds" -> {[k |-> kk] : kk \in IntKinds \cup UintKinds \cup {"f32", "f64", "iface", "num"}}   \* every width x its exact boundaries, as values ...
+                         \cup {[k |-> "ptr", e |-> [k |-> kk]] : kk \in IntKinds \cup UintKinds}
+                         \cup {[k |-> "slice", e |-> [k |-> kk]] : kk \in IntKinds \cup UintKinds}
+                         \cup {[k |-> "map", key |-> kk, e |-> [k |-> "int"]] : kk \in IntKinds \cup UintKinds}   \* ... and as map keys
     [] Fam = "mapkeys" -> {[k |-> "map", key |-> kk, e |-> t] : kk \in AllKeyKinds, t \in {[k |-> "int"], [k |-> "str"]}}   \* every key parser, always in the quick tier
     [] Fam = "wrap1" -> WrapK(Leaf, AllKeyKinds)        \* every key kind: each has its own key parser
     [] Fam = "wrap2" -> Wrap(Wrap(LeafR))
@@ -72,7 +76,7 @@ KV(k, v) == [k |-> k, v |-> v]
 Null == [j |-> "null"]
 Atoms == {Null, [j |-> "t"], [j |-> "f"], [j |-> "x", c |-> "x01"], [j |-> "x", c |-> "xtru"],
           Arr(<<>>), Arr(<<N("p7")>>), Arr(<<Null>>), Obj(<<>>), Obj(<<KV("A", N("p7"))>>), Obj(<<KV("k", S("sx"))>>), Obj(<<KV("12", N("p7"))>>)}
-         \cup {N(c) : c \in NumClasses} \cup {S(c) : c \in StrClasses \ (QClasses \ {"q7", "q300"})}
+         \cup {N(c) : c \in NumClasses \ BoundLits} \cup {S(c) : c \in StrClasses \ (QClasses \ {"q7", "q300"})}
 AtomsR == {Null, [j |-> "t"], N("p7"), N("p300"), N("f1_5"), S("sx"), S("s12"), Arr(<<>>), Obj(<<>>), [j |-> "x", c |-> "x01"]}
           \cup (IF Fam = "opts" THEN {S("ssur"), Obj(<<KV("~sur", N("p7"))>>)} ELSE {})
           \cup (IF Fam \in {"st1", "st1l", "st1w", "st2", "emb", "opts"} THEN {S(c) : c \in QClasses \cup {"strue", "sq", "snull"}} ELSE {})
@@ -137,7 +141,10 @@ MyTypes == {TypeSeq[i] : i \in {x \in 1..Len(TypeSeq) : x % NParts = Part}}
 
 
 
-DocsFor(t) == IF Fam = "bigst" THEN BigDocs(t) ELSE {Match(t)} \cup Perturb(Match(t), 0)
+BoundDocs(t) == CASE t.k = "map" -> {Obj(<<KV(BoundKey(c), N("p7"))>>) : c \in BoundLits} \cup {Obj(<<KV("12", N(c))>>) : c \in {"imax32", "imaxp32", "imax64", "imaxp64"} \cap BoundLits}
+                   [] t.k = "slice" -> {Arr(<<N("p7"), N(c)>>) : c \in BoundLits}
+                   [] OTHER -> {N(c) : c \in BoundLits}
+DocsFor(t) == IF Fam = "bigst" THEN BigDocs(t) ELSE IF Fam = "bounds" THEN BoundDocs(t) ELSE {Match(t)} \cup Perturb(Match(t), 0)
 
 RECURSIVE HasIface(_)
 HasIface(t) == CASE t.k = "iface" -> TRUE
